@@ -63,6 +63,7 @@ def _plan(ctx, w):
     if kinds['cloud']:
         rates = {'never_activates': 0.15, 'preempt': 1.0, 'create_fails': 0.1}
         plan['cloud'] = {k: v for k, v in rates.items() if s.draw(2)}
+    plan['crash'] = s.draw(3) == 1  # up to two crash/restarts of the driver process in this run
     return plan
 
 
@@ -215,6 +216,17 @@ async def chaos_actor(ctx, w, st):
             return
         if cloud_rates.get('preempt') and s.draw(3) == 0:
             w.cloud.preempt_some()
+        if st['plan'].get('crash') and st['crashes'] < 2 and s.draw(4) == 0:
+            # the driver process dies (mid-transaction, mid-request, between a database call and the in-memory update
+            # that mirrors it, ...) and a new one boots from the database a little later
+            from worlds.batch.driverworld import crash_driver, restart_driver
+            st['crashes'] += 1
+            st['driver_down'] = True
+            crash_driver(w)
+            await asyncio.sleep(s.rint(1, 25))
+            st['driver_down'] = 'restarting'
+            await restart_driver(w)
+            st['driver_down'] = False
 
 
 def run(ctx):
@@ -227,7 +239,7 @@ def run(ctx):
     w.compact_billing = cfg.draw(2) == 1
     w.billing_period = (60.0, 20.0, 7.0)[cfg.draw(3)]
     w.max_job_ticks = (3000, 20000, 200)[cfg.draw(3)]
-    st = {'batches': {}, 'clients_done': 0, 'heal': False, 'plan': None}
+    st = {'batches': {}, 'clients_done': 0, 'heal': False, 'plan': None, 'crashes': 0, 'driver_down': False}
     orc = {}
 
     async def main(loop):
@@ -311,6 +323,17 @@ def run(ctx):
         w.faults_on = False
         w.net.faults_enabled = False
         ctx.log.add('world', 'heal', len(pending))
+        if chaos.done() and not chaos.cancelled() and chaos.exception() is not None:
+            raise chaos.exception()
+        chaos.cancel()
+        await asyncio.sleep(0)
+        if st['driver_down'] is True:
+            from worlds.batch.driverworld import restart_driver
+            await restart_driver(w)
+        elif st['driver_down'] == 'restarting':
+            while w.driver_app is None:
+                await asyncio.sleep(0.5)
+        st['driver_down'] = False
         if pending:
             d2, p2 = await asyncio.wait(pending, timeout=300)
             for t in d2:
